@@ -39,6 +39,7 @@ import (
 	"sort"
 	"strings"
 	"sync"
+	"sync/atomic"
 	"testing"
 	"time"
 
@@ -72,6 +73,7 @@ const (
 	firstFollower = models.NodeID(2) // followers are nodes 2, 3, 4
 	dbName        = "db"
 	familyTime    = int64(1700000000000)
+	farFuture     = int64(7258118400000) // 2200-01-01
 )
 
 // ---- light fakes for what a partition needs from the engine ----------------------------------------
@@ -94,9 +96,17 @@ func (s *fakeShard) ShardID() models.ShardID { return 0 }
 
 type fakeFamily struct {
 	tsdb.DataFamily
+	w *world
 }
 
+// TimeRange: the harness owns the family's time range (no clock seam): in the extended histories
+// the family's write window is open (its end lies in the far future) until the generated
+// operation 'the write window passes'; from then on - and in the plain histories, where nobody
+// asks - the family lies in the far past (2023).
 func (f *fakeFamily) TimeRange() timeutil.TimeRange {
+	if f.w != nil && f.w.ext && !f.w.windowPassed {
+		return timeutil.TimeRange{Start: familyTime, End: farFuture}
+	}
 	return timeutil.TimeRange{Start: familyTime, End: familyTime + 3600_000 - 1}
 }
 func (f *fakeFamily) FamilyTime() int64                      { return familyTime }
@@ -122,9 +132,10 @@ type follower struct {
 	side
 
 	online     bool
-	crashed    bool // the process died (see client.Reset); it answers nothing until it is restarted
-	partClosed bool // its wal partition is closed (shutting down) while its rpc server still answers
-	built      bool // a stream has been opened on this partition incarnation (its replica relation is built)
+	flaps      atomic.Int32 // the next lookups of the live node by the leader do not find it (flapping follower, see stepRacingOnline)
+	crashed    bool         // the process died (see client.Reset); it answers nothing until it is restarted
+	partClosed bool         // its wal partition is closed (shutting down) while its rpc server still answers
+	built      bool         // a stream has been opened on this partition incarnation (its replica relation is built)
 	watchers   []func(models.NodeStateType)
 	handler    *storagerpc.ReplicaHandler
 
@@ -169,6 +180,13 @@ type world struct {
 	shapes   map[string]bool
 	faultHit int // faults injected while >= 1 message was un-replicated and replication continued afterwards
 	images   []string
+
+	// extended histories (see ext.go)
+	ext          bool // the extended operation set is generated
+	windowPassed bool // the write window of the family has passed: no more writes
+	destroyed    bool // the leader's wal task found the partition expired and removed its log
+	stuck        bool // a replication step stays blocked (reported): do not wait for it again
+	raced        int  // online notifications delivered while the loop marked itself suspended
 }
 
 type stepRun struct {
@@ -225,7 +243,13 @@ type stateMgr struct {
 }
 
 func (s *stateMgr) GetLiveNode(id models.NodeID) (models.StatefulNode, bool) {
-	if f := s.w.fol(id); f != nil && f.online {
+	f := s.w.fol(id)
+	if f != nil && f.flaps.Load() > 0 {
+		// the follower went away again right after its online notification (see stepRacingOnline)
+		f.flaps.Add(-1)
+		return models.StatefulNode{}, false
+	}
+	if f != nil && f.online {
 		return models.StatefulNode{ID: id, StatelessNode: models.StatelessNode{HostIP: fmt.Sprintf("follower-%d", id), GRPCPort: uint16(id)}}, true
 	}
 	return models.StatefulNode{}, false
@@ -505,7 +529,7 @@ func (w *world) newPartition(dir string, current models.NodeID, f *follower) sid
 		log = &failingLog{FanOutQueue: fq, q: &failingQueue{Queue: fq.Queue(), f: f}}
 	}
 	db := &fakeDB{opt: &option.DatabaseOption{}}
-	p := replica.NewPartition(context.Background(), &fakeShard{db: db}, &fakeFamily{}, current, log, &cliFct{w: w}, &stateMgr{w: w})
+	p := replica.NewPartition(context.Background(), &fakeShard{db: db}, &fakeFamily{w: w}, current, log, &cliFct{w: w}, &stateMgr{w: w})
 	return side{dir: dir, fq: fq, part: p}
 }
 
@@ -766,6 +790,9 @@ func (w *world) appendExcluded() bool {
 }
 
 func (w *world) opAppend() {
+	if w.windowPassed {
+		w.t.Skip("the write window of the family has passed: no writes")
+	}
 	if w.appendExcluded() {
 		w.class("excluded_known:append-before-resync-of-follower-ahead")
 		w.t.Skip("excluded: known finding " + sigLostTail)
@@ -1023,6 +1050,9 @@ func (w *world) leaderLosesTail(whole bool) {
 // a generated number of steps), then the leader falls back to the image: the leader is exactly k
 // messages behind a follower.
 func (w *world) opLoseLastK() {
+	if w.windowPassed {
+		w.t.Skip("the write window of the family has passed: no writes")
+	}
 	if w.busy() || w.appendExcluded() {
 		w.t.Skip("loop blocked / resync pending")
 	}
@@ -1074,7 +1104,10 @@ func (w *world) check(where string) {
 func (w *world) checkFollower(where string, f *follower) {
 	where = fmt.Sprintf("%s: follower %d", where, f.id)
 	lq, fq := w.leader.fq.Queue(), f.fq.Queue()
-	lApp, lAck := lq.AppendedSeq(), lq.AcknowledgedSeq()
+	lApp, lAck := int64(-1), int64(-1)
+	if !w.destroyed { // (a destroyed log holds nothing)
+		lApp, lAck = lq.AppendedSeq(), lq.AcknowledgedSeq()
+	}
 	fApp, fAck := fq.AppendedSeq(), fq.AcknowledgedSeq()
 	readable := !f.partClosed // the pages of a closed log are unmapped
 	// follower: gap free, each position holds a message the leader stored at that very position
@@ -1111,6 +1144,9 @@ func (w *world) checkFollower(where string, f *follower) {
 	// violation: it was true when it was recorded. Positions the leader's log never stored - the
 	// tail it lost - are not held for anybody: after the handshake with a follower that is ahead
 	// FanOutQueue.SetAppendedSeq moves every consumer group over them, as documented.)
+	if w.destroyed {
+		return
+	}
 	r := w.replicator(f)
 	if r == nil {
 		return
@@ -1187,6 +1223,14 @@ func (w *world) converge() {
 			w.openFollower(f)
 		}
 	}
+	if w.destroyed {
+		w.check("after the log of the expired family was destroyed")
+		return
+	}
+	if w.windowPassed {
+		w.convergeNoWrites()
+		return
+	}
 	// known finding sigRefused: a channel on which an append error was answered only
 	// resynchronises after the stream broke: while the finding is listed the connection of such a
 	// channel is reset
@@ -1260,7 +1304,7 @@ func (w *world) converge() {
 	budget := (int(w.leader.fq.Queue().AppendedSeq()+1) + 8) * len(w.fols)
 	done := func(f *follower) bool {
 		r := w.replicator(f)
-		return f.app() >= w.leader.fq.Queue().AppendedSeq() && r.Pending() == 0
+		return r == nil || (f.app() >= w.leader.fq.Queue().AppendedSeq() && r.Pending() == 0)
 	}
 	for i := 0; i < budget; i++ {
 		if w.waitData != nil {
@@ -1293,6 +1337,10 @@ func (w *world) converge() {
 	}
 	lApp := w.leader.fq.Queue().AppendedSeq()
 	for _, f := range w.fols {
+		if w.replicator(f) == nil {
+			// the wal task stopped the channel (checked there: the follower had acknowledged everything)
+			continue
+		}
 		fApp := f.app()
 		ack := w.replicator(f).AckIndex()
 		if fApp < lApp {
@@ -1327,7 +1375,7 @@ func (w *world) close() {
 	for _, f := range w.fols {
 		w.breakStream(f)
 	}
-	if w.step != nil {
+	if w.step != nil && !w.stuck {
 		// release a suspended step while the leader log is still open: the follower is "online" but
 		// refuses connections, so the step ends without a handshake
 		for _, f := range w.fols {
@@ -1353,13 +1401,20 @@ func (w *world) close() {
 	_ = os.RemoveAll(w.root)
 }
 
-func runHistory(t *rapid.T) {
+func runHistory(t *rapid.T) { runHistoryOf(t, "TestReplicationHistory", false) }
+
+func runHistoryOf(t *rapid.T, group string, ext bool) {
 	// 1 follower: 3/8, 2 followers: 3/8, 3 followers: 2/8
-	n := rapid.SampledFrom([]int{1, 1, 1, 2, 2, 2, 3, 3}).Draw(t, "followers")
+	dist := []int{1, 1, 1, 2, 2, 2, 3, 3}
+	if ext {
+		dist = []int{1, 2, 2, 2, 3, 3}
+	}
+	n := rapid.SampledFrom(dist).Draw(t, "followers")
 	w := newWorld(t, n)
+	w.ext = ext
 	defer w.close()
 
-	t.Repeat(map[string]func(*rapid.T){
+	ops := map[string]func(*rapid.T){
 		"append":                  func(t *rapid.T) { w.t = t; w.opAppend() },
 		"append2":                 func(t *rapid.T) { w.t = t; w.opAppend() },
 		"step":                    func(t *rapid.T) { w.t = t; w.opStep() },
@@ -1378,23 +1433,33 @@ func runHistory(t *rapid.T) {
 		"leaderLosesTail":         func(t *rapid.T) { w.t = t; w.opLeaderLosesTail() },
 		"loseLastK":               func(t *rapid.T) { w.t = t; w.opLoseLastK() },
 		"":                        func(t *rapid.T) { w.t = t; w.check("after step") },
-	})
+	}
+	if ext {
+		w.extOps(ops)
+	}
+	t.Repeat(ops)
 	w.t = t
 	w.converge()
 	for c, k := range w.classes {
-		ev.Class("TestReplicationHistory", c, k)
+		ev.Class(group, c, k)
 	}
 	shapes := []string{fmt.Sprintf("followers=%d", n)}
 	for s := range w.shapes {
 		shapes = append(shapes, "case-with:"+s)
 	}
 	sort.Strings(shapes)
-	ev.Case("TestReplicationHistory", strings.Join(w.ops, ";"), w.faultHit > 0, shapes,
+	nonTrivial := w.faultHit > 0 || w.raced > 0 || w.shapes["expiry-check:followers-of-different-progress"]
+	ev.Case(group, strings.Join(w.ops, ";"), nonTrivial, shapes,
 		map[string]any{"history": w.ops, "faults_with_backlog": w.faultHit, "followers": n})
 }
 
+// TestReplicationHistory: the three generators of histories, each with the full budget.
 func TestReplicationHistory(t *testing.T) {
-	rapid.Check(t, runHistory)
+	t.Run("plain", func(t *testing.T) { rapid.Check(t, runHistory) })
+	// + write window / wal expiry task / leader restart / racing online notification (ext_test.go)
+	t.Run("extended", func(t *testing.T) { rapid.Check(t, runHistoryExt) })
+	// offline/online cycles whose online notification races the suspension of the loop (ext_test.go)
+	t.Run("onlineRace", func(t *testing.T) { rapid.Check(t, runOnlineRace) })
 }
 
 // once runs one deterministic scenario; rapid only provides the *rapid.T the world needs.
